@@ -51,6 +51,32 @@ theorem keeps_unsupported {α} (w : String) : KeepsToken (xUnsupported w : XM α
   · intro a x' h; cases h
   · intro e x' h; cases h
 
+theorem keeps_offerCall (cfg : ECfg) (env : Env) (v : Val) : KeepsToken (offerCall cfg env v) := by
+  intro x hx
+  unfold offerCall
+  constructor
+  · intro a x' h
+    split at h <;> (cases h; exact hx)
+  · intro e x' h
+    split at h <;> cases h
+
+theorem keeps_convertTextX (cfg : ECfg) (env : Env) (esc : Esc) (d : Option Str) (v : Val) :
+    KeepsToken (convertTextX cfg env esc d v) := by
+  unfold convertTextX
+  split
+  · exact keeps_unsupported _
+  · exact keeps_bind _ _ (keeps_offerCall cfg env v) (fun _ => keeps_xLiftR _)
+
+theorem keeps_convPartX (cfg : ECfg) (env : Env) (esc : Esc) (d : Option Str) (lf : Bool) (v : Val) :
+    KeepsToken (convPartX cfg env esc d lf v) := by
+  unfold convPartX
+  split
+  · exact keeps_convertTextX cfg env esc d v
+  · refine keeps_bind _ _ (keeps_xLiftR _) (fun b => ?_)
+    split
+    · exact keeps_convertTextX cfg env esc d v
+    · exact keeps_pure _
+
 /-- the TALES evaluator (all four mutually recursive functions) never clears the token -/
 theorem keeps_evalT (cfg : ECfg) (al : List (Str × Val)) (env : Env) : ∀ (f : Nat),
     (∀ e esc d, KeepsToken (evalT cfg al env f e esc d)) ∧
@@ -144,7 +170,7 @@ theorem keeps_evalT (cfg : ECfg) (al : List (Str × Val)) (env : Env) : ∀ (f :
       split
       · exact keeps_pure _
       · rename_i e tok t
-        exact keeps_bind _ _ (keeps_xSetToken tok) (fun _ => keeps_bind _ _ (ihT e esc d) (fun v => keeps_xLiftR _))
+        exact keeps_bind _ _ (keeps_xSetToken tok) (fun _ => keeps_bind _ _ (ihT e esc d) (fun v => keeps_convPartX cfg env esc d lf v))
       · exact keeps_bind _ _ (ihX ps esc d lf) (fun rs => keeps_pure _)
     · intro ps esc d lf
       cases ps with
@@ -156,7 +182,7 @@ theorem keeps_evalT (cfg : ECfg) (al : List (Str × Val)) (env : Env) : ∀ (f :
           exact keeps_bind _ _ (keeps_pure _) (fun a => keeps_bind _ _ (ihX rest esc d lf) (fun b => keeps_pure _))
         | expr e tok t =>
           exact keeps_bind _ _ (keeps_xSetToken tok) (fun _ => keeps_bind _ _ (ihT e esc d)
-            (fun v => keeps_bind _ _ (keeps_xLiftR _) (fun t => keeps_bind _ _ (keeps_pure _)
+            (fun v => keeps_bind _ _ (keeps_convPartX cfg env esc d lf v) (fun t => keeps_bind _ _ (keeps_pure _)
               (fun a => keeps_bind _ _ (ihX rest esc d lf) (fun b => keeps_pure _)))))
 
 /-- **C12 (token bookkeeping)**: evaluating a `Value` sets `__token` to the expression's position
